@@ -235,6 +235,27 @@ def obs3(rep, fmt_fns):
                     rep.violation("OBS-3", key, "bool->%s" % scr,
                                   "`%s` is exported as true=>%s, false=>%s (must be 1/0)" % (scr, vals.get(True), vals.get(False)),
                                   where=hir.where(x))
+            # the same mapping written as `if b { 1 } else { 0 }` (or `u8::from(b)` / `b as _`: exact by definition)
+            els_ = x.get("else", x.get("els"))
+            if x.get("k") == "if" and els_ is not None and "bool" in (hir.strip_wrappers(x["cond"]).get("ty") or "bool"):
+                tv = hir.lit_int(hir.strip_wrappers(_tail(x["then"])))
+                ev = hir.lit_int(hir.strip_wrappers(_tail(els_)))
+                if tv is None or ev is None:
+                    continue
+                scr = describe(x["cond"])
+                if tv == 1 and ev == 0:
+                    rep.ok("OBS-3", key, "bool->%s" % scr, where=hir.where(x))
+                else:
+                    rep.violation("OBS-3", key, "bool->%s" % scr,
+                                  "`%s` is exported as true=>%s, false=>%s (must be 1/0)" % (scr, tv, ev), where=hir.where(x))
+
+
+def _tail(n):
+    """the value of a block: its tail expression"""
+    n = hir.strip_wrappers(n)
+    while isinstance(n, dict) and n.get("k") == "block" and not n.get("stmts") and n.get("expr") is not None:
+        n = hir.strip_wrappers(n["expr"])
+    return n
 
 
 def describe(n):
